@@ -826,7 +826,11 @@ impl<'a> JoinOutput<'a> {
                                 construct_expr_wrapper_name(branch_index, expr_index, index);
                             (
                                 Some((
-                                    quote! { let #wrapper_name = #expr; },
+                                    //
+                                    // The hoisted value takes the place of the block expression, which was a
+                                    // mutable temporary (`{ iter }.find(..)` is fine), so the binding must be `mut`.
+                                    //
+                                    quote! { #[allow(unused_mut)] let mut #wrapper_name = #expr; },
                                     parse_quote! { #wrapper_name },
                                 )),
                                 None,
